@@ -73,7 +73,11 @@ impl LatestPerKeySelector {
                 SelectorRes::Continue
             }
             Some(last) if last.key() == entry.key() => {
-                if entry.timestamp() > last.timestamp() {
+                // The latest entry wins. Entries with equal timestamps are ordered like their
+                // records (by content hash), then by author: the choice must not depend on the
+                // direction in which the index is scanned.
+                let rank = |e: &SignedEntry| (e.timestamp(), e.content_hash(), e.author());
+                if rank(&entry) > rank(&last) {
                     self.0 = Some(entry);
                 } else {
                     self.0 = Some(last);
